@@ -78,8 +78,14 @@ Expected(ev) ==
       [] ev.op = "Quantize" -> Quantize(regs[ev.x], regs[ev.y], ev.rm, mode)
       [] ev.op = "Sum"      -> SumQ([j \in DOMAIN ev.rs |-> regs[ev.rs[j]]], mode)
 
+\* registers an event reads
+Reads(ev) == (IF ev.op \in {"Convert", "Add", "Sub", "Mul", "Div", "Neg", "Abs", "Cmp", "Pow", "Quantize",
+                            "Round", "Alloc", "HashEq"} THEN {ev.x} ELSE {})
+             \cup (IF ev.op \in {"Add", "Sub", "Mul", "Div", "Cmp", "Quantize", "HashEq"} THEN {ev.y} ELSE {})
+             \cup (IF ev.op \in {"Sum", "Sort", "Alloc"} THEN {ev.rs[j] : j \in DOMAIN ev.rs} ELSE {})
 \* judgement of one event: "ok" | "bad" | "oor"
 Judge(ev) ==
+    IF \E r \in Reads(ev) : regs[r].k = "oor" THEN "oor" ELSE      \* an operand left the model range earlier
     CASE ev.op = "Lit"   -> "ok"
       [] ev.op = "Round" -> RoundJudge(regs[ev.x], ev.n, ObsVal(ev.res))
       [] ev.op = "Alloc" ->
@@ -124,10 +130,15 @@ Step ==
             /\ IF j = "ok" THEN TRUE
                ELSE PrintT(<<"QV", j, ev.id, IF ev.op \in {"Round", "Alloc", "HashEq", "Lit", "Sort"}
                                              THEN EmptyV ELSE Expected(ev)>>)
-            /\ live' = (j = "ok")
+            \* a deviation ends the judgement of the program; a value outside the model range only
+            \* poisons the register it is stored in (events reading it are skipped)
+            /\ live' = (j \in {"ok", "oor"})
             /\ mode' = mode /\ mc' = mc
             /\ regs' = IF j = "ok" /\ HasDest(ev) /\ (ev.op = "Lit" \/ ev.res.k # "e")
-                       THEN [regs EXCEPT ![ev.z] = NewReg(ev)] ELSE regs
+                       THEN [regs EXCEPT ![ev.z] = NewReg(ev)]
+                       ELSE IF j = "oor" /\ HasDest(ev) /\ ev.res.k # "e"
+                       THEN [regs EXCEPT ![ev.z] = IF ev.res.k \in {"q", "n"} THEN OORV ELSE EmptyV]
+                       ELSE regs
 TraceSpec == Init /\ [][Step]_tvars
 Consumed == TLCGet("stats").diameter = Len(Tr) + 1
 Post == PrintT(<<"QVDONE", TLCGet("stats").diameter - 1, Len(Tr)>>) /\ Consumed
